@@ -36,7 +36,7 @@ func runC06(c *an.Ctx) {
 	indexTo := p.Func("store", "indexTo")
 	ok := true
 	for name, f := range map[string]*ssa.Function{"store.(*Store).flush": flush, "store.(*Store).flushLoop": flushLoop, "store.(*Store).Stop": stop,
-		"store.(*Store).readByKey": readByKey, "store.(*Store).init": initFn, "store.writeHeaderHashTo": writeHash, "store.indexTo": indexTo} {
+		"store.(*Store).readByKey": readByKey, "store.(*Store).init": initFn, "store.writeHeaderHashTo": writeHash} {
 		ok = c.Need(f, "C06.a", name) && ok
 	}
 	if !ok {
@@ -49,6 +49,10 @@ func runC06(c *an.Ctx) {
 		var batchCall *ssa.Call
 		an.Instrs(flush, func(in ssa.Instruction) {
 			if call, isCall := in.(*ssa.Call); isCall && strings.HasSuffix(an.StaticFullName(&call.Call), "keytransform.Datastore).Batch") {
+				if batchCall != nil {
+					c.Fail("C06.a", "one-batch", "a flush writes through one batch: headers, pointers and index become durable together or not at all", flush, call, "a second batch is created", nil)
+					return
+				}
 				batchCall = call
 			}
 		})
@@ -97,10 +101,23 @@ func runC06(c *an.Ctx) {
 		}
 		c.Check(ptrs["store.headKey"] && ptrs["store.tailKey"], "C06.a", "both-pointers", "a flush writes both the head and the tail pointer", flush, nil, "", nil)
 		ics := callsTo(flush, indexTo)
-		c.Min("C06.a", "index writes in flush", len(ics), 1)
 		for _, ic := range ics {
 			c.Check(t.Of(ic.Call.Args[1]) == batch && t.Of(ic.Call.Args[2]) == "p2", "C06.a", "index-on-batch", "the height index of the flushed headers is written to the same batch", flush, ic, "", nil)
 		}
+		if indexTo == nil {
+			// the index helper was folded into flush: the height-index writes are flush's own
+			an.Instrs(flush, func(in ssa.Instruction) {
+				call, isCall := in.(*ssa.Call)
+				if !isCall || !call.Call.IsInvoke() || call.Call.Method.Name() != "Put" {
+					return
+				}
+				if kc, isKC := call.Call.Args[1].(*ssa.Call); isKC && an.StaticCallee(&kc.Call) != nil && an.FuncName(an.StaticCallee(&kc.Call)) == "store.heightKey" {
+					ics = append(ics, call)
+					c.Check(t.Of(call.Call.Value) == batch, "C06.a", "index-on-batch", "the height index of the flushed headers is written to the same batch", flush, call, "receiver "+t.Of(call.Call.Value), nil)
+				}
+			})
+		}
+		c.Min("C06.a", "index writes in flush", len(ics), 1)
 		if c.Check(commit != nil, "C06.a", "commits", "the batch is committed", flush, nil, "", nil) {
 			fl := an.Flow{Fn: flush}
 			allBefore := true
@@ -143,6 +160,9 @@ func runC06(c *an.Ctx) {
 		}
 		// callees write only through the handle they are given
 		for _, fn := range []*ssa.Function{writeHash, indexTo} {
+			if fn == nil {
+				continue
+			}
 			ft := c.T(fn)
 			an.Instrs(fn, func(in ssa.Instruction) {
 				if call, isCall := in.(*ssa.Call); isCall && call.Call.IsInvoke() && (call.Call.Method.Name() == "Put" || call.Call.Method.Name() == "Delete") {
